@@ -1,6 +1,7 @@
 """C02 Theta set operations (DESIGN.md section 5 C02): structural clauses."""
 import theta_rules as T
 import cowrite
+import generic_lints
 
 
 def run(facts, tier):
@@ -10,9 +11,11 @@ def run(facts, tier):
         ("screens", T.screens, 9, "every key-vs-theta comparison accepts on `<`"),
         ("theta writes", T.theta_writes, 5, "result theta is a min over input thetas"),
         ("pivot agreement", T.pivots, 2, "union result trimming: pivot index == theta index == retained count"),
+        ("intersection emptiness", T.intersection_emptiness, 1, "the intersection becomes empty only on its own accumulated theta"),
         ("seed checks", T.seed_checks, 4, "seed hash mismatch throws before entries of an input are used"),
         ("builder/reset", T.builder_reset, 2, "union reset re-reads theta after the table reset"),
         ("couplings", lambda fa: cowrite.obligations(fa, ['theta_union_base']), 2, "fields that every mutator updates together (counters, extremes, cached values) are still updated together"),
+        ("duplicate operands", lambda fa: generic_lints.duplicate_conjuncts(fa, ('theta/', 'tuple/')), 2, "no logical chain tests the same operand twice (copy-paste of the wrong peer)"),
     ):
         o = f(facts)
         obs += o
